@@ -335,7 +335,9 @@ OPEN_CLASSES = ("retyped-key_ops-str",)
 
 
 PW = ["s3cret"]
-MARKER_WORDS = [b"PUBLIC", b"PRIVATE", b"CERTIFICATE", b"OPENSSH PRIVATE", b"SSH2", b"BEGIN", b"ENCRYPTED", b"ssh-ed25519 ", b"ssh-rsa", b"-----"]
+MARKER_WORDS = [b"PUBLIC", b"PRIVATE", b"CERTIFICATE", b"OPENSSH PRIVATE", b"SSH2", b"BEGIN", b"ENCRYPTED", b"ssh-ed25519 ", b"ssh-rsa", b"-----",
+                # whole armor fragments: whatever words the DER octets of a key contain, they are the DER octets of that key
+                b"PUBLIC KEY-----", b"PRIVATE KEY-----", b"-----BEGIN OPENSSH PRIVATE", b"-----BEGIN CERTIFICATE", b"-----BEGIN PUBLIC KEY-----", b"-----END PRIVATE KEY-----"]
 
 
 def marker_word_keys(ctx, rng):
